@@ -132,7 +132,7 @@ class Program:
     def specialise(self, fn, consts):
         """fn with the branches on the given parameters (1-based index -> integer value) decided: a copy whose
         switches on those parameters are replaced by jumps, SSA rebuilt on the pruned graph"""
-        key = ('spec', fn.path, tuple(sorted(consts.items())))
+        key = ('spec', fn.path, tuple(sorted(consts.items(), key=str)))
         if key in self._summ_cache:
             return self._summ_cache[key]
         from ssa import strip
@@ -145,9 +145,17 @@ class Program:
             while d.kind == 'un' and d.args[0] == 'Not':
                 d = strip(d.args[1])
                 neg = not neg
-            if d.kind != 'param' or d.args[0] not in consts:
+            is_discr = False
+            if d.kind == 'discr':
+                x = strip(d.args[0])
+                while x.kind == 'load' and all(q == '*' for q in x.args[1]):
+                    x = strip(x.args[0])
+                if x.kind == 'param' and ('discr', x.args[0]) in consts:
+                    d = x
+                    is_discr = True
+            if d.kind != 'param' or ((('discr', d.args[0]) if is_discr else d.args[0]) not in consts):
                 continue
-            val = int(consts[d.args[0]])
+            val = int(consts[('discr', d.args[0]) if is_discr else d.args[0]])
             if neg:
                 val = 1 - val
             t = blocks[blk]['term']
@@ -165,7 +173,7 @@ class Program:
             mir = dict(b.mir)
             mir['blocks'] = blocks
             info['mir'] = mir
-            info['path'] = fn.path + '#' + ','.join('%d=%s' % kv for kv in sorted(consts.items()))
+            info['path'] = fn.path + '#' + ','.join('%s=%s' % kv for kv in sorted(consts.items(), key=str))
             res = Fn(self, info)
             res.name = fn.name
             res.specialised_from = fn
